@@ -1,4 +1,5 @@
 """C12 Glob, LIKE, exact and regex matching agree with their textbook definitions."""
+import os
 import re
 import warnings
 
@@ -127,7 +128,31 @@ def gen(tier):
             yield {'op': a, 'op2': b, 'pat': pat, 'fam': 'shared-cache'}
 
 
+def translate(pat, many, one):
+    return '^' + ''.join('.*' if ch == many else '.' if ch == one else re.escape(ch) for ch in pat) + '$'
+
+
+def gen_extra(tier):
+    # a glob / LIKE pattern next to the regular expression it translates to (with and without inline flags)
+    for pat in ('a*', 'a?B', '*B', 'a*1', '?B*'):
+        for op, many, one in (('=', '*', '?'), ('like', '%', '_'), ('!=', '*', '?'), ('notlike', '%', '_')):
+            p2 = pat.replace('*', many).replace('?', one)
+            t = translate(p2, many, one)
+            for rx in (t, '(?is)' + t, '(?i)' + t, t[1:-1]):
+                for rop in ('=~', '!=~'):
+                    for conj in ('and', 'or'):
+                        yield {'fam': 'twin', 'op': op, 'pat': p2, 'op2': rop, 'pat2': rx, 'conj': conj, 'swap': False}
+                        yield {'fam': 'twin', 'op': op, 'pat': p2, 'op2': rop, 'pat2': rx, 'conj': conj, 'swap': True}
+    # a regular-expression search root whose segment text is also used as a pattern in WHERE
+    for seg in ('proj.*', 'proj[12]', 'proj.?', '[p]roj1'):
+        for op in ('=~', '!=~', '=', '!=', 'like', 'notlike'):
+            yield {'fam': 'rxroot', 'op': op, 'pat': seg}
+
+
 def groups(tier, seed):
+    ex = list(gen_extra(tier))
+    for i in range(0, len(ex), 120):
+        yield {'cases': ex[i:i + 120]}
     chunk = []
     for c in gen(tier):
         chunk.append(c)
@@ -139,7 +164,7 @@ def groups(tier, seed):
 
 
 def single(case):
-    return {'cases': [{k: v for k, v in case.items() if k in ('op', 'op2', 'pat', 'fam', 'rhs')}], 'tier': case.get('tier')}
+    return {'cases': [{k: v for k, v in case.items() if k in ('op', 'op2', 'pat', 'fam', 'rhs', 'pat2', 'conj', 'swap')}], 'tier': case.get('tier')}
 
 
 def match(op, pat, name):
@@ -190,6 +215,42 @@ def eval_group(env, group, tier):
                              detail={'query': q, 'missing': sorted(set(exp) - got)[:6], 'extra': sorted(got - set(exp))[:6]})
                 else:
                     r.update(status='ok', sig=tuple(sorted(exp)))
+                outs.append(r)
+                continue
+            if c['fam'] in ('twin', 'rxroot'):
+                if c['fam'] == 'twin':
+                    a = 'name %s %s' % (c['op'], quote(c['pat']))
+                    b_ = 'name %s %s' % (c['op2'], quote(c['pat2']))
+                    cond = (b_ + ' ' + c['conj'] + ' ' + a) if c['swap'] else (a + ' ' + c['conj'] + ' ' + b_)
+                    q = 'name from . where %s into list' % cond
+                    f = (lambda x, y: x and y) if c['conj'] == 'and' else (lambda x, y: x or y)
+                    exp = sorted(n for n in names if f(match(c['op'], c['pat'], n), match(c['op2'], c['pat2'], n)))
+                    universe = names
+                else:
+                    sub = {'proj1': ['myproj.txt', 'proj.txt', 'old-proj-notes', 'proj1', 'x'], 'proj2': ['aproj1', 'proj.', 'PROJ.x'], 'projects': ['proj.*']}
+                    rxr = env.newdir('c12rx')
+                    for d_, fs in sub.items():
+                        os.makedirs(os.path.join(rxr, d_), exist_ok=True)
+                        for f_ in fs:
+                            open(os.path.join(rxr, d_, f_), 'w').close()
+                    q = "name from %s rx where name %s %s into list" % (quote(c['pat']), c['op'], quote(c['pat']))
+                    dirs_ = [d_ for d_ in sub if re.fullmatch(c['pat'], d_)]
+                    universe = [f_ for d_ in dirs_ for f_ in sub[d_]]
+                    exp = sorted(n for n in universe if match(c['op'], c['pat'], n))
+                o = env.run([q], cwd=rxr if c['fam'] == 'rxroot' else root)
+                if c['fam'] == 'rxroot':
+                    env.rmtree(rxr)
+                case = dict(c, tier=tier, query=q)
+                r = {'case': case, 'nt': 0 < len(exp) < len(universe), 'layer': c['fam'], 'trans': len(universe)}
+                rows = o.rows()
+                if o.timeout or o.rc != 0 or o.err:
+                    r.update(status='viol', cls=c['fam'] + ':status', detail=dict(o.brief(), query=q), sig=('err', o.rc))
+                elif sorted(rows) != exp:
+                    got = set(rows)
+                    r.update(status='viol', cls=c['fam'] + ':' + c['op'] + ':rows', sig=('rows', c['fam'], c['op']),
+                             detail={'query': q, 'missing': sorted(set(exp) - got)[:6], 'extra': sorted(got - set(exp))[:6]})
+                else:
+                    r.update(status='ok', sig=tuple(exp))
                 outs.append(r)
                 continue
             lit = quote(c['pat'])
